@@ -125,7 +125,7 @@ func solveOne(o *Obligation, opt SolveOpts, idx int) {
 		want = "sat"
 		// a contradiction among assumptions shows up quickly as unsat; proving satisfiability in the
 		// presence of quantifiers is hard for the solvers and not needed: only "unsat" is a vacuity alarm
-		if opt.Secs > 3 && !opt.All {
+		if opt.Secs > 3 {
 			opt.Secs = 3
 		}
 	}
@@ -143,18 +143,35 @@ func solveOne(o *Obligation, opt SolveOpts, idx int) {
 		return false
 	}
 	if opt.All && !o.Cover {
+		// thorough tier: every solver is asked. After the first conclusive answer the others get a grace period (three
+		// times what the first needed, at least 10 s) to contradict it; a solver still silent then counts as no answer.
 		var rs []solveResult
-		var wg sync.WaitGroup
-		res := make([]solveResult, len(solvers))
-		for i, sp := range solvers {
-			wg.Add(1)
-			go func(i int, sp solverSpec) {
-				defer wg.Done()
-				res[i] = runSolver(sp, file, opt.Secs)
-			}(i, sp)
+		ctxAll, cancelAll := context.WithCancel(context.Background())
+		chAll := make(chan solveResult, len(solvers))
+		for _, sp := range solvers {
+			go func(sp solverSpec) { chAll <- runSolverCtx(ctxAll, sp, file, opt.Secs) }(sp)
 		}
-		wg.Wait()
-		rs = res
+		var grace <-chan time.Time
+		for len(rs) < len(solvers) {
+			select {
+			case r := <-chAll:
+				rs = append(rs, r)
+				if grace == nil && (r.status == "unsat" || r.status == "sat") {
+					g := time.Duration(3*r.secs*float64(time.Second)) + 10*time.Second
+					grace = time.After(g)
+				}
+			case <-grace:
+				cancelAll()
+				for len(rs) < len(solvers) {
+					r := <-chAll
+					if r.status != "unsat" && r.status != "sat" {
+						r.status = "timeout"
+					}
+					rs = append(rs, r)
+				}
+			}
+		}
+		cancelAll()
 		var un, sa []string
 		for _, r := range rs {
 			o.Secs += r.secs
